@@ -1,4 +1,5 @@
 #![allow(dead_code)]
+mod c04;
 mod c10;
 mod c16;
 mod circ;
@@ -15,6 +16,10 @@ fn main() {
     match args[1].as_str() {
         "reg-convert" => c10::cmd_convert(rest),
         "reg-convert-corpus" => c10::cmd_convert_corpus(rest),
+        "builder-replay" => c04::cmd_replay(rest),
+        "builder-record" => c04::cmd_record(rest),
+        "shape-compile" => c04::cmd_shape_compile(rest),
+        "onoff" => c04::cmd_onoff(rest),
         "c16-replay" => c16::cmd_replay(rest),
         "c16-products" => c16::cmd_products(rest),
         "compile-one" => corpus::cmd_compile_one(rest),
